@@ -7,6 +7,7 @@ mod append;
 mod catalogue;
 mod derived;
 mod hist;
+mod ledger;
 mod like;
 mod modeled;
 mod probe;
